@@ -28,6 +28,7 @@ SETS = {
     "five-mixed": [("oct32", 0, "s0"), ("oct32", 1, "s1"), ("P-256", 0, None), ("P-256", 1, "e1"), ("rsa", 0, None)],
     "two-ed": [("Ed25519", 0, None), ("Ed25519", 1, "ed-b")],
     "x-and-rsa": [("X25519", 0, "x-a"), ("X25519", 1, None), ("rsa", 1, "r")],
+    "long-kids": [("oct32", 0, "k" * 257), ("P-256", 0, "https://keys.example.com/" + "tenant-0123456789/" * 60 + "current"), ("oct32", 1, "short")],
     "unicode-kids": [("oct32", 0, "schl\u00fcssel-1"), ("P-256", 0, "\u9375"), ("oct32", 1, "plain-after-unicode")],
 }
 SIG_ALG = {"oct": "HS256", "EC": "ES256", "RSA": "RS256", "OKP": "EdDSA"}
